@@ -184,9 +184,8 @@ class KeyModel:
             key = None
             if self.cached[i]:
                 ra = root_args_of(spec, name)
-                avail = {**{p: v for p, v in defaults.items()}, **kw, **f.get("bound", {})}
                 fd = {p: defaults[p] for p in f["params"] if p in defaults}
-                avail = {**fd, **f.get("bound", {}), **kw}
+                avail = {**fd, **kw}  # (the function's own bound values are not part of the key: fix 'bound shadows default')
                 if all(a in avail for a in ra):
                     key = (fname(i), tuple((a, avail[a]) for a in ra))
             hit = key is not None and key in self.cache
@@ -630,6 +629,13 @@ def spec_family(stage):
             for d in gen_dag.decorations(s):
                 if d["deco"] in kinds:
                     yield d
+    elif stage == "N2-bound-equals-a-call-value":
+        # a root shared by two functions: a DEFAULT in the upstream one, BOUND in the (cached) downstream one to a value that a
+        # caller may also pass for the root (the call alphabet uses 1 and 2): what identifies the call is the value the root
+        # argument takes, not the bound value of the function whose result is stored
+        for kind in ("sigdef", "pfdef"):
+            yield {"funcs": [{"name": "f0", "params": ["x"], "outs": ["o0"], kind: {"x": 1}},
+                             {"name": "f1", "params": ["o0", "x"], "outs": ["o1"], "bound": {"x": 2}}], "deco": "bound-root+" + kind}
     elif stage == "N3-family":
         yield from N3_FAMILY
     elif stage == "N3-all":
@@ -655,6 +661,7 @@ def plan(tier, seed):
         # depth 3 = call; mutation; call  (the shortest history on which a mutation can make a stored entry stale)
         ("N2-decorated-mutations" if thorough else "N2-decorated-mutations-quick", ["simple"] if not thorough else ["simple", "lru", "disk"], 3, True, "all"),
         ("N3-family", ["simple"] if not thorough else ["simple", "lru", "hybrid", "disk"], 3, True, "all" if not thorough else "each"),
+        ("N2-bound-equals-a-call-value", ["simple", "lru"], 2 if not thorough else 3, False, "each"),
     ]
     for stage, caches, depth, muts, subsets in table:
         for spec in spec_family(stage):
